@@ -256,8 +256,9 @@ def bits_at(lv, off, nbytes):
 class Val:
     """A batch-like value living at C expression `expr` of ll2c type `ctype` (by value or through a pointer)."""
 
-    def __init__(self, ctype, expr, tinfo, old=False):
+    def __init__(self, ctype, expr, tinfo, old=False, native=False):
         self.ctype, self.expr, self.tinfo = ctype, expr, tinfo
+        self.native = native
         if ctype.endswith("*"):
             self.lv = leaves(ctype[:-1].strip(), "(*%s)" % expr, tinfo)
             self.by_ptr = True
@@ -276,6 +277,8 @@ class Val:
         return self.bits(base + i * w, w)
 
     def as_old(self):
+        if self.native:   # native replay: the pre-state copy is bound to OLD_<name>
+            return Val(self.ctype, "OLD_" + self.expr, self.tinfo, old=False, native=True)
         v = Val.__new__(Val)
         v.__dict__.update(self.__dict__)
         v.old = True
